@@ -20,7 +20,7 @@ from vf import build, recs, tlc
 _PID = "-%d" % os.getpid()
 
 KIND_CODE = {"next": 1, "setprio": 2, "addback": 3, "addfront": 4, "conduse": 5, "readd": 6, "tick": 7}
-ALPHA_LETTER = {"n": 1, "s": 2, "a": 3, "f": 4, "c": 5, "r": 6, "t": 7}
+ALPHA_LETTER = {"n": 1, "s": 2, "a": 3, "f": 4, "c": 5, "r": 6, "t": 7, "v": 2}
 SIG_CLAUSE = {"C17:wait-unperturbed": "wait-unperturbed", "C17:wait-perturbed": "wait", "C17:proportion": "proportion",
               "C17:selected-message-without-priority-or-none": "selection"}
 # sub-alphabets in increasing order; the first one on which the monitor rejects names the signature
